@@ -1,4 +1,5 @@
 import MalVerif.Py.TieSt
+import MalVerif.Py.TieStPartial
 import MalVerif.PropsGen.C09
 /-
 C09 / C11 for the translated code, the part that needs THE HEAP AFTER AN EXCEPTION.
@@ -186,5 +187,76 @@ theorem pre_fix_add_attacker_changes_id_st :
   subst hs
   refine ⟨rfl, by decide, by decide, ?_⟩
   exact add_attacker_rejected_heap_unchanged _ 1 (some 5) [] [] .valueError rfl
+
+/-! ### the removals raise half-way on inconsistent input: the state they leave
+
+(what the harness's "wild histories" observe; proofs in `Py/TieStPartial.lean`) -/
+
+/-- **`undo_compromise`** raises exactly when the node lists the attacker but the attacker does not list the node,
+with `ValueError`, and then the node's side HAS been removed (nothing else changed): the two sides of the relation
+of C11 are made to agree — by an exception -/
+theorem undo_compromise_partial_state (s s' : H) (a : ARef) (n : NRef) (e : PyErr) :
+    run (attacker_undo_compromise_st s a n) = (s', .error e) ↔
+      e = .valueError ∧ a ∈ (s.n n).compromised_by ∧ n ∉ (s.a a).reached_attack_steps ∧
+      s' = s.setN n { s.n n with compromised_by := (s.n n).compromised_by.erase a } := by
+  rw [← undo_compromise_st_partial_state_iff]
+  cases attacker_undo_compromise_st s a n with
+  | ok s1 => constructor <;> intro h <;> cases h
+  | error p =>
+    obtain ⟨e1, s1⟩ := p
+    constructor
+    · intro h; cases h; rfl
+    · intro h; cases h; rfl
+
+/-- **`remove_attacker`**: the loop that undoes the attacker's compromises cannot raise (it runs over the attacker's
+own list); the call raises exactly when, after that loop (heap `s1`), the attacker is not in `graph.attackers`
+(`ValueError`, heap `s1`: every compromise undone, nothing else), or it has no id (`ValueError`) or its id is not a
+key of `_id_to_attacker` (`KeyError`) — in the last two cases it has ALREADY been removed from `graph.attackers` -/
+theorem remove_attacker_partial_state (s s' : H) (a : ARef) (e : PyErr) :
+    run (graph_remove_attacker_st s a) = (s', .error e) ↔
+      ∃ s1, (s.a a).reached_attack_steps.foldlM (fun h m => attacker_undo_compromise h a m) s = .ok s1 ∧
+        ((a ∉ s1.attackers ∧ e = .valueError ∧ s' = s1) ∨
+         (a ∈ s1.attackers ∧ (s1.a a).id = none ∧ e = .valueError ∧
+           s' = { s1 with attackers := s1.attackers.erase a }) ∨
+         (a ∈ s1.attackers ∧ (s1.a a).id.isSome = true ∧ e = .keyError ∧
+           dictIn s1._id_to_attacker (optIntGet (s1.a a).id) = false ∧
+           s' = { s1 with attackers := s1.attackers.erase a })) := by
+  rw [← remove_attacker_st_partial_state_sharp]
+  cases graph_remove_attacker_st s a with
+  | ok s1 => constructor <;> intro h <;> cases h
+  | error p =>
+    obtain ⟨e1, s1⟩ := p
+    constructor
+    · intro h; cases h; rfl
+    · intro h; cases h; rfl
+
+/-- **`remove_node`**: a raise inside the four loops or at `self.nodes.remove(node)` (`ValueError`) leaves the
+graph's lists, indexes and counters and every node's id / name as they were (`GFrame`; only `parents` / `children` /
+`compromised_by` / attackers' lists were written); the later raises leave the node REMOVED from `graph.nodes` while
+(no id: `ValueError`; id not indexed: `KeyError`) `_id_to_node` is untouched, or (full name not indexed: `KeyError`)
+`_id_to_node` has lost the id but `_full_name_to_node` still has the name -/
+theorem remove_node_partial_state (s s' : H) (n : NRef) (e : PyErr)
+    (h : run (graph_remove_node_st s n) = (s', .error e)) :
+    (e = .valueError ∧ GFrame s s') ∨
+    ∃ s4, GFrame s s4 ∧ n ∈ s.nodes ∧
+      (((s.n n).id = none ∧ e = .valueError ∧ s' = { s4 with nodes := s.nodes.erase n }) ∨
+       ((s.n n).id.isSome = true ∧ e = .keyError ∧ dictIn s._id_to_node (optIntGet (s.n n).id) = false ∧
+          s' = { s4 with nodes := s.nodes.erase n }) ∨
+       ((s.n n).id.isSome = true ∧ e = .keyError ∧ dictIn s._id_to_node (optIntGet (s.n n).id) = true ∧
+          dictIn s._full_name_to_node (node_full_name s n) = false ∧
+          s' = { s4 with nodes := s.nodes.erase n,
+                         _id_to_node := s._id_to_node.filter (fun e => !(e.1 == optIntGet (s.n n).id)) })) := by
+  apply remove_node_st_partial_state
+  cases hx : graph_remove_node_st s n with
+  | ok s1 => rw [hx] at h; cases h
+  | error p => obtain ⟨e1, s1⟩ := p; rw [hx] at h; cases h; rfl
+
+/-- the half-way states are reachable: on `exH1` (node 0 says it is compromised by attacker 0, who has reached
+nothing) `remove_node(node0)` raises in its third loop; the node is still registered but no longer lists the
+attacker -/
+example :
+    (run (graph_remove_node_st exH1 0)).2 = .error .valueError ∧ ((run (graph_remove_node_st exH1 0)).1).nodes = [0] ∧
+    (exH1.n 0).compromised_by = [0] ∧ (((run (graph_remove_node_st exH1 0)).1).n 0).compromised_by = [] :=
+  ⟨rfl, rfl, rfl, rfl⟩
 
 end MalVerif.PropsGen.C09_St
